@@ -217,6 +217,9 @@ func (c *fakeCA) CSRSign(csrPEM []byte, _ int64) ([]string, error) {
 		return nil, err
 	}
 	leaf := string(pem.EncodeToMemory(&pem.Block{Type: "CERTIFICATE", Bytes: der}))
+	if idx%2 == 1 {
+		leaf = strings.TrimSuffix(leaf, "\n") // concatCerts must put the newline back between chain elements
+	}
 	return []string{leaf, signer.pem}, nil
 }
 
@@ -227,7 +230,16 @@ func (c *fakeCA) GetRootCertBundle() ([]string, error) {
 	if out.kind == "bundleerr" {
 		return nil, errors.New("scripted GetRootCertBundle error")
 	}
-	return bundlePEMs(out.bundle), nil
+	b := bundlePEMs(out.bundle)
+	c.mu.Lock()
+	odd := len(c.recs)%2 == 0
+	c.mu.Unlock()
+	if odd {
+		for i := 0; i+1 < len(b); i++ {
+			b[i] = strings.TrimSuffix(b[i], "\n") // same for all but the last bundle element
+		}
+	}
+	return b, nil
 }
 
 // ------------------------------------------------------------------ recording delayed queue
@@ -237,7 +249,10 @@ type qEntry struct {
 	delay time.Duration
 	at    time.Time // when PushDelayed was called
 	fired bool
-	cert  int // serial-1 of the workload cert cached when the entry was pushed (bookkeeping for the oracle)
+	done  bool // the task has returned
+	cert  int  // serial-1 of the workload cert cached when the entry was pushed (bookkeeping for the oracle)
+	// the workload cache was non-empty when PushDelayed was called (registerSecret stores first)
+	cachedAtPush bool
 }
 
 // fakeQueue implements queue.Delayed: it records the tasks registerSecret pushes (the closures are
@@ -245,13 +260,34 @@ type qEntry struct {
 type fakeQueue struct {
 	mu      sync.Mutex
 	entries []*qEntry
+	sc      *nacache.SecretManagerClient // to look at the cache at push time
+	// syncRun, when set, is asked at every push whether the task shall be run synchronously inside
+	// PushDelayed (what a zero-delay task on a fast queue amounts to): the order SetWorkload(&item)
+	// then PushDelayed is part of the property - a task that runs before the store is a no-op and
+	// the certificate is never renewed
+	syncRun func(idx int) bool
 }
 
 func (q *fakeQueue) Push(t queue.Task) { q.PushDelayed(t, 0) }
 func (q *fakeQueue) PushDelayed(t queue.Task, d time.Duration) {
+	e := &qEntry{task: t, delay: d, at: time.Now(), cert: -1}
+	if q.sc != nil {
+		e.cachedAtPush = nacache.VerifCachedWorkload(q.sc) != nil
+	}
 	q.mu.Lock()
-	defer q.mu.Unlock()
-	q.entries = append(q.entries, &qEntry{task: t, delay: d, at: time.Now(), cert: -1})
+	idx := len(q.entries)
+	q.entries = append(q.entries, e)
+	run := q.syncRun != nil && q.syncRun(idx)
+	if run {
+		e.fired = true
+	}
+	q.mu.Unlock()
+	if run {
+		_ = t()
+		q.mu.Lock()
+		e.done = true
+		q.mu.Unlock()
+	}
 }
 func (q *fakeQueue) Run(stop <-chan struct{}) { <-stop }
 func (q *fakeQueue) Closed() <-chan struct{} {
@@ -274,6 +310,15 @@ type sut struct {
 	emu sync.Mutex
 	ev  []byte     // 'R' / 'W' / 'w' callbacks in order
 	cit *citServer // stream citadel: the in-process CA service behind the real CitadelClient
+	// UpdateConfigTrustBundle in progress: the bundle it announces (read by the handler under emu)
+	expectCfg     []byte
+	expectCfgSet  bool
+	ratio, jitter float64
+}
+
+// bucketable: the nearest-quarter bucket of the scheduled delay does not depend on the jitter draw.
+func (s *sut) bucketable() bool {
+	return s.jitter <= 1.0/16 && s.ratio*4 == float64(int(s.ratio*4))
 }
 
 func newSUT(ratio, jitter float64, realQueue bool) *sut {
@@ -288,8 +333,40 @@ func newSUT(ratio, jitter float64, realQueue bool) *sut {
 
 // newSUTWith builds the real SecretManagerClient on the given CA client; `ca` is the signing fake CA
 // behind it (directly, or behind the in-process gRPC service of the citadel stream).
+// ownQueue (set by newSUTOwnQueue only): keep the delayed queue NewSecretManagerClient created and started
+// itself (queue.NewDelayed(queue.DelayQueueBuffer(0)) + go queue.Run) instead of the recording one.
+var ownQueue bool
+
+func newSUTOwnQueue(ratio, jitter float64) *sut {
+	initRoots()
+	sutCreate.Lock()
+	defer sutCreate.Unlock()
+	ownQueue = true
+	defer func() { ownQueue = false }()
+	ca := &fakeCA{}
+	return newSUTWith(ratio, jitter, ca, ca)
+}
+
+var sutCreate sync.Mutex
+
+// filePaths (set by newFileSUT only): file-mounted cert chain, key, root.
+var filePaths [3]string
+
+// outputDir (set by newSUTOutputDir only): security.Options.OutputKeyCertToDir.
+var outputDir string
+
+func newSUTOutputDir(dir string) *sut {
+	initRoots()
+	sutCreate.Lock()
+	defer sutCreate.Unlock()
+	outputDir = dir
+	defer func() { outputDir = "" }()
+	ca := &fakeCA{}
+	return newSUTWith(0.5, 0, ca, ca)
+}
+
 func newSUTWith(ratio, jitter float64, ca *fakeCA, client security.Client) *sut {
-	s := &sut{ca: ca, q: &fakeQueue{}}
+	s := &sut{ca: ca, q: &fakeQueue{}, ratio: ratio, jitter: jitter}
 	opts := &security.Options{
 		ECCSigAlg:                            string(pkiutil.EcdsaSigAlg),
 		TrustDomain:                          "cluster.local",
@@ -298,10 +375,17 @@ func newSUTWith(ratio, jitter float64, ca *fakeCA, client security.Client) *sut 
 		SecretTTL:                            24 * time.Hour,
 		SecretRotationGracePeriodRatio:       ratio,
 		SecretRotationGracePeriodRatioJitter: jitter,
+		OutputKeyCertToDir:                   outputDir,
+		CertChainFilePath:                    filePaths[0],
+		KeyFilePath:                          filePaths[1],
+		RootCertFilePath:                     filePaths[2],
 	}
 	sc, err := nacache.NewSecretManagerClient(client, opts)
 	must(err)
-	nacache.VerifSetQueue(sc, s.q)
+	s.q.sc = sc
+	if !ownQueue {
+		nacache.VerifSetQueue(sc, s.q)
+	}
 	s.sc = sc
 	sc.RegisterSecretHandler(s.record)
 	return s
@@ -315,7 +399,14 @@ func (s *sut) record(name string) {
 		defer s.emu.Unlock()
 		switch name {
 		case security.RootCertReqResourceName:
-			s.ev = append(s.ev, 'R')
+			// the order "store the new value, then announce ROOTCA" is part of the property: a subscriber
+			// that re-requests ROOTCA from this callback must get the new anchors.  'R' = the announced value
+			// is in place at callback time, 'r' = it is not (yet).
+			if s.rootAnnouncedInPlace() {
+				s.ev = append(s.ev, 'R')
+			} else {
+				s.ev = append(s.ev, 'r')
+			}
 		case security.WorkloadKeyCertResourceName:
 			// the order "empty the cache, then notify" is part of the property: a subscriber that
 			// re-requests from this callback must not find the old certificate. 'W' = cache empty
@@ -329,6 +420,39 @@ func (s *sut) record(name string) {
 			s.ev = append(s.ev, '?')
 		}
 	}
+}
+
+// rootAnnouncedInPlace: during UpdateConfigTrustBundle (expectCfg set by the harness) configTrustBundle must
+// already be the bundle being set; otherwise (GenerateSecret found a new CA root) cache.certRoot must already
+// be the root of the latest CA response.  Sequential streams only (expectations are the harness's own inputs).
+func (s *sut) rootAnnouncedInPlace() bool {
+	if s.expectCfgSet {
+		return bytes.Equal(nacache.VerifConfigTrustBundle(s.sc), s.expectCfg)
+	}
+	s.ca.mu.Lock()
+	roots := ""
+	for i := len(s.ca.recs) - 1; i >= 0; i-- {
+		if s.ca.recs[i].out.kind == "ok" {
+			roots = s.ca.recs[i].roots
+			break
+		}
+	}
+	s.ca.mu.Unlock()
+	if roots == "" {
+		return true
+	}
+	return lettersOrDash(nacache.VerifCachedRoot(s.sc)) == roots
+}
+
+// updateBundle calls UpdateConfigTrustBundle telling the recording handler what is being announced.
+func (s *sut) updateBundle(b []byte) {
+	s.emu.Lock()
+	s.expectCfg, s.expectCfgSet = b, true
+	s.emu.Unlock()
+	_ = s.sc.UpdateConfigTrustBundle(b)
+	s.emu.Lock()
+	s.expectCfgSet = false
+	s.emu.Unlock()
 }
 
 func (s *sut) close() {
